@@ -74,7 +74,11 @@ type accAnnotations struct {
 		// Scoped: the token is held only at the sites inside ConfinedTo; sites of the field elsewhere are
 		// allowed but get no token — they have to be protected by real locks against the token-holding sites
 		Scoped bool
-		Why    string
+		// Guard: the token stands for the closed-flag barrier on this mutex (guarded accesses under Guard while
+		// !closed; the closing goroutine's access after its exclusive critical section of Guard that sets closed):
+		// emitted as Gen.barrierTokens, the ordering claim is then derived from lock events (BarrierProtocol)
+		Guard string
+		Why   string
 	} `json:"tokens"`
 	CtorFuncs []struct {
 		Func    string
@@ -109,6 +113,8 @@ type lockset struct {
 type pubInfo struct {
 	container string // "global:partitionsCache", "compress/zstd.Codec.encoderPool", "chan:<expr>"
 	anyUse    bool   // Pool.Put: the object is no longer ours, any later use counts; otherwise only writes
+	longLived bool   // the name is a field of a TRACKED struct (an object that lives across calls): retaining it matters
+	direct    bool   // the name IS the address of the tracked field `container` (v := &x.f): uses are accesses of the field itself
 }
 
 func newLS(fresh bool) *lockset {
@@ -229,7 +235,9 @@ type accExtractor struct {
 	trackedNames  map[string]bool
 	confinedCache map[string]map[string]bool
 	closures      map[token.Pos]*closureInfo
-	lockVars      map[types.Object]string // local *sync.Mutex variables → the mutex they point to
+	lockVars      map[types.Object]string        // local *sync.Mutex variables → the mutex they point to
+	putsParam     map[*types.Func]map[int]string // function → parameter index → pool it hands the argument to
+	skLockOps     int                            // lock operations (on named mutexes) the skeleton builder translated
 }
 
 func (x *accExtractor) typeDisplay(tn *types.TypeName) string {
@@ -290,7 +298,7 @@ func isMutexType(t types.Type) (rw bool, ok bool) {
 func extractAccesses(repo, root string) error {
 	x := &accExtractor{repo: repo, fset: token.NewFileSet(), tracked: map[*types.TypeName]string{}, atomicTy: map[string]bool{},
 		funcs: map[*types.Func]*funcNode{}, usedAnn: map[string]bool{}, nclosure: map[string]int{},
-		methodsNamed: map[string][]*funcNode{}, aliases: map[string]map[string]bool{}, ourPkgs: map[*types.Package]*pkgInfo{}, trackedNames: map[string]bool{}, closures: map[token.Pos]*closureInfo{}, lockVars: map[types.Object]string{}}
+		methodsNamed: map[string][]*funcNode{}, aliases: map[string]map[string]bool{}, ourPkgs: map[*types.Package]*pkgInfo{}, trackedNames: map[string]bool{}, closures: map[token.Pos]*closureInfo{}, lockVars: map[types.Object]string{}, putsParam: map[*types.Func]map[int]string{}}
 	ab, err := os.ReadFile(filepath.Join(root, "go", "extract", "accesses", "access_annotations.json"))
 	if err != nil {
 		return err
@@ -368,6 +376,7 @@ func extractAccesses(repo, root string) error {
 	}
 	x.aliasPrepass()
 	x.lockVarPrepass()
+	x.poolPutPrepass()
 	// walk every function body
 	for _, p := range x.pkgs {
 		for _, f := range p.files {
@@ -556,6 +565,10 @@ func (w *walker) stmt(s ast.Stmt, ls *lockset) (*lockset, bool) {
 				if k := exprKey(l); k != "" && !strings.Contains(k, ".") {
 					if c, ok := w.sharedPtrField(s.Rhs[i]); ok {
 						ls.pub[k] = pubInfo{container: c, anyUse: false}
+					} else if c, ok := w.addrOfTrackedField(s.Rhs[i]); ok {
+						// v := &x.f — the address of a tracked field in a local: every later use of v (after the
+						// lock was released, say) is an access of x.f with the lockset held THERE
+						ls.pub[k] = pubInfo{container: c, anyUse: true, direct: true}
 					}
 				}
 			}
@@ -882,7 +895,9 @@ func (w *walker) selector(e *ast.SelectorExpr, ls *lockset, mode amode, atomic b
 				}
 			}
 			ft := f.Type()
-			if w.isAtomicNamed(ft) {
+			if _, isPtr := types.Unalias(ft).(*types.Pointer); w.isAtomicNamed(ft) && !(isPtr && isSyncType(ft)) {
+				// a value field of a sync / atomic type is only touched through its methods; a POINTER to
+				// a sync object (r.joinGen *sync.WaitGroup) is an ordinary word: `x.f = p` is a plain write
 				fa = true
 			}
 			switch fm {
@@ -931,6 +946,33 @@ func (w *walker) selector(e *ast.SelectorExpr, ls *lockset, mode amode, atomic b
 		xm = mRead
 	}
 	w.expr(e.X, ls, xm)
+}
+
+// valueFieldOf: e selects a non-pointer field of a tracked struct type (possibly through embedding);
+// returns the owner's display name and the field name
+func (w *walker) valueFieldOf(e *ast.SelectorExpr) (string, string, bool) {
+	sel := w.p.info.Selections[e]
+	if sel == nil || sel.Kind() != types.FieldVal {
+		return "", "", false
+	}
+	t := sel.Recv()
+	idx := sel.Index()
+	for i, k := range idx {
+		st, ok := derefStruct(t)
+		if !ok {
+			return "", "", false
+		}
+		f := st.Field(k)
+		if i == len(idx)-1 {
+			owner, tracked := w.trackedStruct(t)
+			if _, isPtr := types.Unalias(f.Type()).(*types.Pointer); !tracked || isPtr {
+				return "", "", false
+			}
+			return owner, f.Name(), true
+		}
+		t = f.Type()
+	}
+	return "", "", false
 }
 
 func derefStruct(t types.Type) (*types.Struct, bool) {
@@ -1252,6 +1294,32 @@ func (w *walker) call(c *ast.CallExpr, ls *lockset, kind string) {
 			return
 		}
 	}
+	// sync.WaitGroup reuse contract ("calls with a positive delta that occur when the counter is zero
+	// must happen before a Wait"): Add/Go of a WaitGroup VALUE field of a tracked type is a write, Wait a
+	// read, of the virtual field T.f/reuse; Done is not recorded (it never starts from zero). Add ∥ Wait
+	// without a common lock (or a recorded ordering token) is then rejected like any other pair.
+	if callee != nil && recv != nil && callee.Pkg() != nil && callee.Pkg().Path() == "sync" {
+		if n := namedOf(w.p.info.TypeOf(recv)); n != nil && n.Obj().Name() == "WaitGroup" {
+			re := recv
+			for {
+				pe, ok := re.(*ast.ParenExpr)
+				if !ok {
+					break
+				}
+				re = pe.X
+			}
+			if se, ok := re.(*ast.SelectorExpr); ok {
+				if owner, fname, ok := w.valueFieldOf(se); ok {
+					switch callee.Name() {
+					case "Add", "Go":
+						w.record(owner+"."+fname+"/reuse", se, se.X, true, false, ls)
+					case "Wait":
+						w.record(owner+"."+fname+"/reuse", se, se.X, false, false, ls)
+					}
+				}
+			}
+		}
+	}
 	// sync/atomic functions on &x.f
 	if callee != nil && callee.Pkg() != nil && callee.Pkg().Path() == "sync/atomic" && recv == nil {
 		for i, a := range c.Args {
@@ -1339,6 +1407,14 @@ func (w *walker) call(c *ast.CallExpr, ls *lockset, kind string) {
 			w.publish(c.Args[0], w.containerName(recv), true, ls)
 		case "sync/atomic.Value.Store", "sync/atomic.Pointer.Store":
 			w.publish(c.Args[0], w.containerName(recv), false, ls)
+		}
+	}
+	// a package-local helper that hands its parameter to a sync.Pool (releaseBuffer(b)): the call publishes the argument
+	if kind == "" && callee != nil {
+		for i, pool := range w.x.putsParam[callee] {
+			if i < len(c.Args) {
+				w.publish(c.Args[i], pool, true, ls)
+			}
 		}
 	}
 	// interface method call: every declared method of that name whose receiver type implements the
@@ -1646,6 +1722,79 @@ func (x *accExtractor) emit(root string) error {
 			}
 		}
 	}
+	// translation completeness (R1): every selector expression that selects a field of a tracked struct type, anywhere
+	// in the analysed sources, must have produced a row at its position
+	rowPos := map[token.Pos]bool{}
+	for _, r := range x.rows {
+		rowPos[r.pos] = true
+	}
+	var missed []string
+	for _, p := range x.pkgs {
+		w := &walker{x: x, p: p}
+		for _, f := range p.files {
+			ast.Inspect(f, func(n ast.Node) bool {
+				switch n := n.(type) {
+				case *ast.SelectorExpr:
+					sel := p.info.Selections[n]
+					if sel == nil || sel.Kind() != types.FieldVal {
+						return true
+					}
+					t := sel.Recv()
+					idx := sel.Index()
+					for _, k := range idx[:len(idx)-1] {
+						st, ok := derefStruct(t)
+						if !ok {
+							return true
+						}
+						t = st.Field(k).Type()
+					}
+					if _, tracked := w.trackedStruct(t); tracked && !rowPos[n.Pos()] {
+						ft := sel.Obj().Type()
+						if _, tr := w.trackedStruct(ft); tr {
+							if _, isPtr := ft.(*types.Pointer); !isPtr {
+								return true // &x.f / x.f.g of a tracked value struct: the inner field carries the row
+							}
+						}
+						missed = append(missed, fmt.Sprintf("%s: field selection %s.%s without a row", x.fset.Position(n.Pos()), n.Sel.Name, ""))
+					}
+				}
+				return true // (a function literal the walker never saw, e.g. a package-level sync.Pool New function, is
+				// covered through its selectors: they would be missing rows)
+			})
+		}
+	}
+	sort.Strings(missed)
+	// every Lock/RLock/Unlock/RUnlock call on a mutex the extractor can name must have been translated into a skeleton
+	srcLockOps := 0
+	for _, p := range x.pkgs {
+		w := &walker{x: x, p: p}
+		for _, f := range p.files {
+			var cur *funcNode
+			ast.Inspect(f, func(n ast.Node) bool {
+				if fd, ok := n.(*ast.FuncDecl); ok {
+					if o, _ := p.info.Defs[fd.Name].(*types.Func); o != nil {
+						cur = x.funcs[o]
+					}
+				}
+				c, ok := n.(*ast.CallExpr)
+				if !ok {
+					return true
+				}
+				callee, recv := w.calleeOf(c)
+				if callee == nil || recv == nil || callee.Pkg() == nil || callee.Pkg().Path() != "sync" {
+					return true
+				}
+				if _, isMu := isMutexType(p.info.TypeOf(recv)); !isMu {
+					return true
+				}
+				w.fn = cur
+				if w.lockID(recv) != "" {
+					srcLockOps++
+				}
+				return true
+			})
+		}
+	}
 	// dedupe identical rows at the same site
 	seen := map[string]bool{}
 	var rows []*accRow
@@ -1822,14 +1971,21 @@ func (x *accExtractor) emit(root string) error {
 		}
 	}
 	sort.Ints(exempt)
-	var tokenIDs []string
+	var tokenIDs, plainIDs, barrierIDs []string
 	seenTok := map[string]bool{}
 	for _, t := range x.ann.Tokens {
 		if !seenTok[t.Token] {
 			seenTok[t.Token] = true
 			tokenIDs = append(tokenIDs, fmt.Sprint(em.lockID(t.Token)))
+			if t.Guard != "" {
+				barrierIDs = append(barrierIDs, fmt.Sprintf("(%d, %d)", em.lockID(t.Token), em.lockID(t.Guard)))
+			} else {
+				plainIDs = append(plainIDs, fmt.Sprint(em.lockID(t.Token)))
+			}
 		}
 	}
+	fmt.Fprintf(&sk, "/-- tokens whose ordering claim is an assumption (ownership hand-offs, sync.Once) -/\ndef plainTokenIds : List Mutex := [%s]\n\n", strings.Join(plainIDs, ", "))
+	fmt.Fprintf(&sk, "/-- closed-flag barrier tokens with their guard mutex: (token, guard) -/\ndef barrierTokens : List (Mutex × Mutex) := [%s]\n\n", strings.Join(barrierIDs, ", "))
 	fmt.Fprintf(&sk, "/-- ordering-protocol tokens: not locks, not subject to the lockset analysis -/\ndef tokenIds : List Mutex := [%s]\n\n", strings.Join(tokenIDs, ", "))
 	var exs []string
 	for _, e := range exempt {
@@ -1928,6 +2084,9 @@ func (x *accExtractor) emit(root string) error {
 		Fields      int                 `json:"fields"`
 		Locks       []string            `json:"locks"`
 		Exported    []string            `json:"exported_methods"`
+		Missed      []string            `json:"missed_sites"`
+		SrcLockOps  int                 `json:"lock_ops_in_source"`
+		SkLockOps   int                 `json:"lock_ops_in_skeletons"`
 		Aliases     []string            `json:"pointer_aliases"`
 		CHAEdges    int                 `json:"interface_call_edges"`
 	}{Rows: rows, Excluded: excluded, Unresolved: x.unresolved, Confinement: confinement, Used: used, Entry: map[string][]string{}, Fields: len(fields), Locks: locks}
@@ -1962,6 +2121,8 @@ func (x *accExtractor) emit(root string) error {
 	sort.Strings(out.Exported)
 	sort.Strings(x.aliasWhy)
 	out.Aliases, out.CHAEdges = x.aliasWhy, x.chaEdges
+	out.Missed = missed
+	out.SrcLockOps, out.SkLockOps = srcLockOps, x.skLockOps
 	jb, _ := json.MarshalIndent(out, "", " ")
 	os.MkdirAll(filepath.Join(root, ".build", "c10"), 0o755)
 	if err := os.WriteFile(filepath.Join(root, ".build", "c10", "accesses.json"), jb, 0o644); err != nil {
@@ -2217,13 +2378,34 @@ func (w *walker) publish(arg ast.Expr, container string, anyUse bool, ls *lockse
 			return
 		}
 	}
-	ls.pub[k] = pubInfo{container: container, anyUse: anyUse}
+	longLived := false
+	if se, ok := arg.(*ast.SelectorExpr); ok {
+		if sel := w.p.info.Selections[se]; sel != nil && sel.Kind() == types.FieldVal {
+			t := sel.Recv()
+			idx := sel.Index()
+			for _, i := range idx[:len(idx)-1] {
+				if st, ok := derefStruct(t); ok {
+					t = st.Field(i).Type()
+				}
+			}
+			_, longLived = w.trackedStruct(t)
+		}
+	}
+	ls.pub[k] = pubInfo{container: container, anyUse: anyUse, longLived: longLived}
 }
 
 func (w *walker) pubRow(container string, pos token.Pos, ls *lockset) {
+	w.pubRowD(container, false, pos, ls)
+}
+
+func (w *walker) pubRowD(container string, direct bool, pos token.Pos, ls *lockset) {
 	p := w.x.fset.Position(pos)
 	rel, _ := filepath.Rel(w.x.repo, p.Filename)
-	w.x.rows = append(w.x.rows, &accRow{Field: "pointee:" + container, Write: true, Phase: "published", File: rel, Line: p.Line,
+	field := "pointee:" + container
+	if direct {
+		field = container
+	}
+	w.x.rows = append(w.x.rows, &accRow{Field: field, Write: true, Phase: "published", File: rel, Line: p.Line,
 		Func: w.fname, ls: ls.clone(), owner: w.fn, pos: pos})
 }
 
@@ -2263,7 +2445,7 @@ func (w *walker) pubUse(e ast.Expr, ls *lockset, mode amode) {
 		}
 		write := (mode == mWrite || mode == mAddr) && (through || isField)
 		if info.anyUse || write {
-			w.pubRow(info.container, e.Pos(), ls)
+			w.pubRowD(info.container, info.direct, e.Pos(), ls)
 		}
 	}
 }
@@ -2272,7 +2454,7 @@ func (w *walker) pubUse(e ast.Expr, ls *lockset, mode amode) {
 // the next call (double Put / use after Put across calls)
 func (w *walker) retained(ls *lockset, pos token.Pos) {
 	for k, info := range ls.pub {
-		if info.anyUse && strings.Contains(k, ".") {
+		if info.anyUse && !info.direct && info.longLived && strings.Contains(k, ".") {
 			w.pubRow(info.container, pos, ls)
 		}
 	}
@@ -2447,5 +2629,80 @@ func (x *accExtractor) lockVarPrepass() {
 	}
 	for o := range conflict {
 		delete(x.lockVars, o)
+	}
+}
+
+// addrOfTrackedField: e is `&x.f` with f a field of a tracked type whose own type is neither tracked nor sync/atomic
+// (bufio.Reader, writeBuffer, …).  Returns "Owner.f".
+func (w *walker) addrOfTrackedField(e ast.Expr) (string, bool) {
+	u, ok := e.(*ast.UnaryExpr)
+	if !ok || u.Op != token.AND {
+		return "", false
+	}
+	se, ok := u.X.(*ast.SelectorExpr)
+	if !ok {
+		return "", false
+	}
+	sel := w.p.info.Selections[se]
+	if sel == nil || sel.Kind() != types.FieldVal || len(sel.Index()) != 1 {
+		return "", false
+	}
+	owner, tracked := w.trackedStruct(sel.Recv())
+	if !tracked {
+		return "", false
+	}
+	ft := sel.Obj().Type()
+	if _, tr := w.trackedStruct(ft); tr || w.isAtomicNamed(ft) {
+		return "", false
+	}
+	if _, isMu := isMutexType(ft); isMu {
+		return "", false
+	}
+	return owner + "." + sel.Obj().Name(), true
+}
+
+// poolPutPrepass: declared functions that pass one of their parameters straight to `X.Put(p)` of a sync.Pool
+// (outside function literals and deferred calls) — `releaseBuffer(b)`.  One level, no transitive closure.
+func (x *accExtractor) poolPutPrepass() {
+	for obj, fn := range x.funcs {
+		var params []types.Object
+		for _, f := range fn.decl.Type.Params.List {
+			if len(f.Names) == 0 {
+				params = append(params, nil)
+			}
+			for _, n := range f.Names {
+				params = append(params, fn.pkg.info.Defs[n])
+			}
+		}
+		w := &walker{x: x, p: fn.pkg, fn: fn}
+		var visit func(n ast.Node)
+		visit = func(n ast.Node) {
+			ast.Inspect(n, func(m ast.Node) bool {
+				switch m := m.(type) {
+				case *ast.FuncLit, *ast.DeferStmt, *ast.GoStmt:
+					return false
+				case *ast.CallExpr:
+					callee, recv := w.calleeOf(m)
+					if callee == nil || recv == nil || len(m.Args) != 1 || w.calleeName(callee) != "sync.Pool.Put" {
+						return true
+					}
+					id, ok := m.Args[0].(*ast.Ident)
+					if !ok {
+						return true
+					}
+					o := fn.pkg.info.Uses[id]
+					for i, p := range params {
+						if p != nil && p == o {
+							if x.putsParam[obj] == nil {
+								x.putsParam[obj] = map[int]string{}
+							}
+							x.putsParam[obj][i] = w.containerName(recv)
+						}
+					}
+				}
+				return true
+			})
+		}
+		visit(fn.decl.Body)
 	}
 }
